@@ -235,6 +235,7 @@ def msgsOf (s : St) : Ev → List Msg
   | .testStarted t => .testStarted t.name :: (if !t.willRun then [.testIgnored t.name] else [])
   | .print text => [.text text]
   | .failure f => [.testFailed f.testName (failureLocation f) f.message]
+  | .veryVerbose text => if s.veryVerbose then [.text text] else []
   | .testEnded ms _ =>
     match s.currTest with
     | none => []
@@ -244,8 +245,11 @@ def msgsOf (s : St) : Ev → List Msg
 
 def msgStep (s : St) (e : Ev) : St × List Msg := ((step s e).1, msgsOf s e)
 
-/-- the message list of a whole run -/
-def messages (evs : List Ev) : List Msg := (foldEvents msgStep {} evs).2
+/-- the message list of a whole run; `vv` = very verbose mode on -/
+def messagesV (vv : Bool) (evs : List Ev) : List Msg := (foldEvents msgStep { veryVerbose := vv } evs).2
+
+/-- the message list of a whole run in the default mode -/
+def messages (evs : List Ev) : List Msg := messagesV false evs
 
 theorem escapeRef_lit_plain (x : String) (h : plain (lit x)) : escapeRef (lit x) = lit x :=
   escapeRef_plain _ h
@@ -267,6 +271,7 @@ theorem step_renders (s : St) (e : Ev) : (step s e).2 = renderAll (msgsOf s e) :
     cases hw : t.willRun <;>
       simp [step, msgsOf, renderAll, Msg.render, testStartedOut, message, attr, printEscaped_eq_ref, lit, hw]
   | print text => simp [step, msgsOf, renderAll, Msg.render]
+  | veryVerbose text => cases hv : s.veryVerbose <;> simp [step, msgsOf, renderAll, Msg.render, hv]
   | failure f =>
     simp only [step, msgsOf, renderAll, Msg.render, failureOut, message, attr, List.flatMap_cons, List.flatMap_nil,
       escape_failureLocation, printEscaped_eq_ref]
